@@ -187,7 +187,14 @@ class CellCtx:
                 try:
                     ok, detail = replay(vals, bvals)
                 except Exception as e:  # noqa: BLE001 - real code may raise on the witness
-                    ok, detail = False, "replay raised " + "".join(traceback.format_exception_only(type(e), e)).strip()
+                    from . import interp as _I
+                    where = _I.real_code_frame(e)
+                    msg = "".join(traceback.format_exception_only(type(e), e)).strip()
+                    if where is not None:
+                        # the un-traced real code raised on the concrete witness: that is a reproduced failure of the obligation
+                        ok, detail = True, f"the real code raises on the witness: {msg[:200]} at {where}"
+                    else:
+                        ok, detail = False, "replay raised " + msg
                     rec["replay_exception"] = traceback.format_exc()[-2000:]
                 rec["reproduced"] = bool(ok)
                 rec["replay_detail"] = detail
